@@ -852,6 +852,12 @@ func (g *jgen) tplResume(maxSubs int) (*jScenario, string, string) {
 		s.auto = 1
 	}
 	nbClass := rng.Pick(g.r, []string{"0", "<cap", "=cap", "=cap", "2cap", "3cap", "cap+1", ">cap"})
+	forced := ""
+	if g.r.Chance(1, 6) {
+		// the ring exactly full (write position wrapped to the start), resumed from one of its ends
+		nbClass = rng.Pick(g.r, []string{"=cap", "2cap", "3cap"})
+		forced = rng.Pick(g.r, []string{"newest", "newest", "oldest"})
+	}
 	nb := 0
 	switch nbClass {
 	case "<cap":
@@ -862,6 +868,9 @@ func (g *jgen) tplResume(maxSubs int) (*jScenario, string, string) {
 		nb = 2 * capEff
 	case "3cap":
 		nb = 3 * capEff
+		if s.kind == 2 {
+			nb = 4 * capEff // the ValidReplayer's ring doubles: 4, 8, 16
+		}
 	case "cap+1":
 		nb = capEff + 1
 	case ">cap":
@@ -923,6 +932,9 @@ func (g *jgen) tplResume(maxSubs int) (*jScenario, string, string) {
 	}
 	present := rng.Pick(g.r, []string{"oldest", "oldest", "middle", "middle", "newest", "newest", "newest", "evicted", "evicted",
 		"evicted", "text", "above", "2^63", "2^64-1", "non-canonical", "non-canonical", "unset"})
+	if forced != "" {
+		present = forced
+	}
 	if len(buffered) == 0 && (present == "oldest" || present == "middle" || present == "newest") {
 		present = "above"
 	}
@@ -1042,7 +1054,7 @@ func (g *jgen) tplResume(maxSubs int) (*jScenario, string, string) {
 		mode = "auto"
 	}
 	g.c.Count("replay:replayer:" + []string{"", "finite", "valid"}[s.kind] + "/" + mode)
-	if !auto && present == "newest" && len(ids) > 0 && len(ids)%capEff == 0 {
+	if !auto && present == "newest" && len(ids) > 0 && (s.kind == 1 && len(ids)%capEff == 0 || s.kind == 2 && (len(ids) == 4 || len(ids) == 8 || len(ids) == 16)) {
 		g.c.Count("replay:manual-newest-in-last-ring-slot")
 	}
 	return s, nbClass, present
